@@ -259,9 +259,9 @@ int main(int argc, char** argv)
         std::vector<std::string> values;
     };
     std::vector<Plan> plans;
-    std::vector<std::string> v6 = { "x", "", "a=b", "a\nb", "-5", "12" };
-    std::vector<std::string> v5 = { "x", "", "a=b", "-7", "--x" };
-    std::vector<std::string> v12 = { "x", "", "a=b", "a b", "\xc3\xa9\xff", "a\nb", "-5", "--x", "-", "12", "007", "--", "18446744073709551614", "-9223372036854775808", "2.5" };
+    std::vector<std::string> v6 = { "x", "", "a=b", "a\nb", "-5", "12", "tumo" }; // "tumo": the short letters of all other items
+    std::vector<std::string> v5 = { "x", "", "a=b", "-7", "--x", "tumo" };
+    std::vector<std::string> v12 = { "x", "", "a=b", "a b", "\xc3\xa9\xff", "a\nb", "-5", "--x", "-", "12", "007", "--", "18446744073709551614", "-9223372036854775808", "2.5", "tumo" };
     if (!a.thorough())
         plans = { { a.asan() ? 2 : 3, v6 }, { a.asan() ? 1 : 2, v12 } };
     else
@@ -281,6 +281,10 @@ int main(int argc, char** argv)
             N_MULTI = variant == 2 ? "opt-x" : "multi";
             N_UGG = variant == 2 ? "toggle" : "ugg";
             Decl D = declaration(shorts);
+            // what is a value-taking option here was a toggle in the parser object's earlier life, and the other way round
+            Decl Dprev;
+            Dprev.items = { Item::tog("opt", "o"), Item::multi(N_MULTI, "u"), Item::opt("tog", "t"), Item::tog(N_UGG, "m") };
+            Dprev.accepted = 1;
             if (variant == 4)
             {
                 // toggles with non-zero defaults: the count is the number of occurrences, the default only when absent
@@ -340,6 +344,10 @@ int main(int argc, char** argv)
                                 long vidx = ctx.next;
                                 ctx.each([&] { return chk.describe_vector_entry(D, av, {}); },
                                          [&](mc::Report& rep) { chk.run_vector_entry(D, av, {}, rep, vidx); });
+                                // every rendering of an assignment of <= 2 items (first plan) also on a parser that was used before its
+                                // declaration was complete, and on a parser object that held the previous variant's declaration
+                                if (len <= 2 && &plan == &plans[0])
+                                    chk.used_before(ctx, D, Dprev, av, {});
                             });
                         }
                         int p = len - 1;
